@@ -329,9 +329,17 @@ class Body:
                 out += proj_key(p)
         return out
 
+    def deep_str(self, op):
+        """like op_str but expands named single-definition locals too (what the value is computed from)"""
+        self._deep = True
+        try:
+            return self.op_str(op)
+        finally:
+            self._deep = False
+
     def local_str(self, l, depth=0):
         nm = self.local_name(l)
-        if nm:
+        if nm and not (getattr(self, "_deep", False) and self.single_def(l) is not None and not self.is_arg(l) and depth < 6):
             return nm
         if l == 0:
             return "ret"
